@@ -2,6 +2,8 @@
 package main
 
 import (
+	"bytes"
+	"compress/gzip"
 	"encoding/json"
 	"errors"
 	"fmt"
@@ -23,19 +25,22 @@ type TestRec struct {
 	record.Base
 	sync.Mutex
 
-	S    string
-	I    int64
-	U8   uint8
-	B    bool
-	F    float64
-	L    []string
-	M    map[string]int
-	Sub  struct{ X int32; Y string }
+	S   string
+	I   int64
+	U8  uint8
+	B   bool
+	F   float64
+	L   []string
+	M   map[string]int
+	Sub struct {
+		X int32
+		Y string
+	}
 	P    *int
 	Blob []byte
 }
 
-type exec struct{}
+type exec struct{ w *record.Wrapper }
 
 func mkMeta(f []string) (*record.Meta, bool) {
 	if len(f) != 6 {
@@ -153,12 +158,49 @@ func mkRec(seed int64) *TestRec {
 	return r
 }
 
-func (exec) Do(line string) string {
+func (e *exec) Do(line string) string {
 	f := strings.Fields(line)
 	if len(f) == 0 {
 		return "bad-op"
 	}
 	switch f[0] {
+	case "wnew":
+		if len(f) != 9 {
+			return "bad-op"
+		}
+		m, ok := mkMeta(f[1:7])
+		fm, err := strconv.Atoi(f[7])
+		if !ok || err != nil || fm > 255 {
+			return "bad-op"
+		}
+		e.w, _ = record.NewWrapper("db:key", m, uint8(fm), hxlib.UnHex(f[8]))
+		return "ok"
+	case "wset": // metadata changed in place through the Meta() pointer, as the database layer does
+		if e.w == nil {
+			return "bad-op"
+		}
+		m, ok := mkMeta(f[1:7])
+		if !ok {
+			return "bad-op"
+		}
+		cur := e.w.Meta()
+		cur.Created, cur.Modified, cur.Expires, cur.Deleted = m.Created, m.Modified, m.Expires, m.Deleted
+		if f[5] == "1" {
+			cur.MakeSecret()
+		}
+		if f[6] == "1" {
+			cur.MakeCrownJewel()
+		}
+		return "ok"
+	case "wrt": // serialise the wrapper as it is now and parse the result
+		if e.w == nil {
+			return "bad-op"
+		}
+		b, err := e.w.MarshalRecord(e.w)
+		if err != nil {
+			return "err marshal " + err.Error()
+		}
+		return e.Do("parse " + hxlib.Hex(b))
 	case "mw":
 		if len(f) != 9 {
 			return "bad-op"
@@ -268,7 +310,10 @@ func (exec) Do(line string) string {
 		if err != nil {
 			return "err"
 		}
-		return fmt.Sprintf("ok %d %s", w.Format, hxlib.Hex(w.Data))
+		m := w.Meta()
+		return fmt.Sprintf("ok %d %d %d %d %d %s", m.Created, m.Modified, m.Expires, m.Deleted, w.Format, hxlib.Hex(w.Data))
+	case "parsev":
+		return e.Do("parsex " + f[1])
 	case "key":
 		db, k := record.ParseKey(string(hxlib.UnHex(f[1])))
 		return hxlib.Hex([]byte(db)) + " " + hxlib.Hex([]byte(k))
@@ -289,6 +334,7 @@ func monitor(c hxlib.Case, outs []string) (vs []hxlib.Violation) {
 		}
 		vs = append(vs, hxlib.Violation{Sig: sig, What: what, Lines: c.Lines[lo : i+1], Output: outs[lo : i+1]})
 	}
+	var cur []string // current metadata / format / data of the stateful wrapper
 	for i, l := range c.Lines {
 		f := strings.Fields(l)
 		o := outs[i]
@@ -297,6 +343,36 @@ func monitor(c hxlib.Case, outs []string) (vs []hxlib.Violation) {
 			continue
 		}
 		switch f[0] {
+		case "wnew":
+			cur = append([]string{}, f[1:]...)
+		case "wset":
+			if cur != nil {
+				copy(cur[0:4], f[1:5])
+				if f[5] == "1" {
+					cur[4] = "1"
+				}
+				if f[6] == "1" {
+					cur[5] = "1"
+				}
+			}
+		case "wrt":
+			if cur != nil {
+				fm, _ := strconv.Atoi(cur[6])
+				if fm < 128 {
+					del, _ := strconv.ParseInt(cur[3], 10, 64)
+					want := fmt.Sprintf("ok %s %s %s", strings.Join(cur[0:6], " "), cur[6], cur[7])
+					if del > 0 {
+						want = fmt.Sprintf("ok %s 1 -", strings.Join(cur[0:6], " "))
+					}
+					if o != want {
+						vs = append(vs, hxlib.Violation{Sig: "C08:wrapper-roundtrip-after-meta-change", What: fmt.Sprintf("parse(marshal(w)) = %q, want %q", o, want), Lines: c.Lines[:i+1], Output: outs[:i+1]})
+					}
+				}
+			}
+		case "parsev": // a record whose meta section was produced by a real codec from known metadata
+			if !strings.HasPrefix(o, "ok "+strings.Join(f[2:6], " ")+" ") {
+				add(i, "C08:codec-meta-section", fmt.Sprintf("record with a %s meta section for metadata %v parsed as %q", f[6], f[2:6], o))
+			}
 		case "rt":
 			if strings.HasPrefix(o, "FAIL") {
 				add(i, "C08:typed-roundtrip", o)
@@ -364,7 +440,13 @@ func generate(r *hxlib.Run, emit func(hxlib.Case)) {
 			strconv.Itoa(rng.Intn(2)), strconv.Itoa(rng.Intn(2))}
 	}
 	formats := []int{dsd.AUTO, dsd.RAW, dsd.CBOR, dsd.GenCode, dsd.JSON, dsd.MsgPack, dsd.YAML, dsd.GZIP, 127, 128, 200, 255}
-	payload := func() []byte {
+	// payload prefixes that mean something to some layer (BOM, JSON tokens, gzip magic, format bytes, …)
+	dict := [][]byte{{0xEF, 0xBB, 0xBF}, []byte("{"), []byte("["), []byte("null"), []byte(" "), []byte("\n"), {0}, {0x1f, 0x8b, 0x08},
+		[]byte("J"), {1}, {0xff, 0xfe}, []byte("\""), {0x80}, {0xc8, 0x01}, []byte("Z"), []byte("G")}
+	payload0 := func() []byte { return nil }
+	_ = payload0
+	var payload func() []byte
+	basePayload := func() []byte {
 		switch rng.Intn(5) {
 		case 0:
 			return nil
@@ -382,7 +464,14 @@ func generate(r *hxlib.Run, emit func(hxlib.Case)) {
 		rng.Read(b)
 		return b
 	}
-	ex := exec{}
+	payload = func() []byte {
+		p := basePayload()
+		if rng.Intn(4) == 0 {
+			p = append(append([]byte{}, dict[rng.Intn(len(dict))]...), p...)
+		}
+		return p
+	}
+	ex := &exec{}
 	var valid [][]byte
 	// (a) structured marshal → parse pairs
 	N := r.Budget(4000, 300000)
@@ -407,6 +496,70 @@ func generate(r *hxlib.Run, emit func(hxlib.Case)) {
 			r.Count("deleted:no")
 		}
 		emit(hxlib.Case{Lines: lines, NonTrivial: true, Kind: "wrapper-roundtrip"})
+	}
+	// wrappers with history: serialise, change the metadata in place, serialise again
+	for i := 0; i < r.Budget(1500, 60000); i++ {
+		fm := formats[rng.Intn(len(formats))]
+		lines := []string{fmt.Sprintf("wnew %s %d %s", strings.Join(meta(), " "), fm, hxlib.Hex(payload())), "wrt"}
+		for j := 0; j < 1+rng.Intn(4); j++ {
+			lines = append(lines, "wset "+strings.Join(meta(), " "), "wrt")
+			if rng.Intn(3) == 0 {
+				lines = append(lines, "wrt")
+			}
+		}
+		emit(hxlib.Case{Lines: lines, NonTrivial: true, Kind: "wrapper-with-history"})
+	}
+	// records whose meta section is in a third-party codec or compressed (outside the model: implementation
+	// only; no panic, and where the section was produced by the real codec from known metadata it must load)
+	for i := 0; i < r.Budget(1200, 40000); i++ {
+		mm := meta()
+		m, _ := mkMeta(mm)
+		var ms []byte
+		name := ""
+		valid := true
+		switch k := rng.Intn(9); k {
+		case 0, 1, 2, 3:
+			f := []uint8{dsd.JSON, dsd.CBOR, dsd.MsgPack, dsd.YAML}[k]
+			name = []string{"JSON", "CBOR", "MsgPack", "YAML"}[k]
+			ms, _ = dsd.Dump(m, f)
+		case 4:
+			name = "GZIP+JSON"
+			ms, _ = dsd.DumpAndCompress(m, dsd.JSON, dsd.GZIP)
+		case 5:
+			name = "GZIP+GenCode"
+			ms, _ = dsd.DumpAndCompress(m, dsd.GenCode, dsd.GZIP)
+		default: // gzip streams of arbitrary short content, incl. empty, a lone format byte, garbage
+			valid = false
+			name = "GZIP+arbitrary"
+			var inner []byte
+			switch rng.Intn(5) {
+			case 0:
+			case 1:
+				inner = []byte{[]byte{dsd.JSON, dsd.GenCode, dsd.GZIP, dsd.RAW, 0}[rng.Intn(5)]}
+			case 2:
+				inner = append([]byte{dsd.GZIP}, gz(nil)...)
+			default:
+				inner = make([]byte, rng.Intn(40))
+				rng.Read(inner)
+			}
+			ms = append([]byte{dsd.GZIP}, gz(inner)...)
+			if rng.Intn(4) == 0 && len(ms) > 3 {
+				ms = ms[:len(ms)-1-rng.Intn(3)]
+			}
+		}
+		if ms == nil {
+			continue
+		}
+		rec := append([]byte{1}, varint.PrependLength(ms)...)
+		if mm[3] == "0" || strings.HasPrefix(mm[3], "-") {
+			rec = append(append(rec, dsd.JSON), payload()...)
+		}
+		r.Count("meta-section:" + name)
+		if valid && !strings.HasPrefix(name, "GZIP+GenCode") {
+			emit(hxlib.Case{Lines: []string{"parsev " + hxlib.Hex(rec) + " " + strings.Join(mm[0:4], " ") + " " + name}, Kind: "codec-meta-section", NoModel: true, NonTrivial: true})
+		} else {
+			emit(hxlib.Case{Lines: []string{"parsex " + hxlib.Hex(rec)}, Kind: "codec-meta-section", NoModel: true, NonTrivial: true})
+		}
 	}
 	// typed records (JSON codec is a parameter of the model: byte-exact marshal is compared, the value
 	// round trip is checked on the implementation)
@@ -493,10 +646,18 @@ func generate(r *hxlib.Run, emit func(hxlib.Case)) {
 	}
 }
 
+func gz(b []byte) []byte {
+	var buf bytes.Buffer
+	w := gzip.NewWriter(&buf)
+	_, _ = w.Write(b)
+	_ = w.Close()
+	return buf.Bytes()
+}
+
 type execWrap struct{ exec }
 
 // Do strips the "@<json>" suffix the generator attaches for the model's benefit on `mb` lines.
-func (e execWrap) Do(line string) string {
+func (e *execWrap) Do(line string) string {
 	if i := strings.IndexByte(line, '@'); i >= 0 {
 		line = line[:i]
 	}
@@ -505,10 +666,10 @@ func (e execWrap) Do(line string) string {
 
 func main() {
 	hxlib.Main(&hxlib.Harness{
-		Prop: "C08",
-		Rule: "structured: metadata tuples from {0,±1,now,±2^31,±2^53,±2^56,2^63-1,-2^63,random int64} × flags × formats (all DSD ids, 127, 128, 200, 255) × payloads (empty, 1 B, JSON, random ≤4 KiB) × deleted or not: MarshalRecord bytes compared byte for byte with the model, NewRawWrapper results field by field, gencode marshal/unmarshal; typed records of the harness schema (round trip checked on the implementation, bytes compared with the model given the JSON payload); keys; malformed: every truncation and single-byte corruption (8 values per position) of up to 40/200 valid encodings, flag bytes 0..255, block length fields at all boundaries incl. 2^63, 2^64-1, version and meta-format bytes, random strings ≤64 B. Non-trivial: everything except keys without a colon; distinct by hash of the op lines.",
+		Prop:     "C08",
+		Rule:     "(also: wrappers with history — metadata changed in place between serialisations; records whose meta section is produced by a real third-party codec or gzip, incl. empty/garbage gzip streams; payloads with a dictionary of meaningful prefixes) structured: metadata tuples from {0,±1,now,±2^31,±2^53,±2^56,2^63-1,-2^63,random int64} × flags × formats (all DSD ids, 127, 128, 200, 255) × payloads (empty, 1 B, JSON, random ≤4 KiB) × deleted or not: MarshalRecord bytes compared byte for byte with the model, NewRawWrapper results field by field, gencode marshal/unmarshal; typed records of the harness schema (round trip checked on the implementation, bytes compared with the model given the JSON payload); keys; malformed: every truncation and single-byte corruption (8 values per position) of up to 40/200 valid encodings, flag bytes 0..255, block length fields at all boundaries incl. 2^63, 2^64-1, version and meta-format bytes, random strings ≤64 B. Non-trivial: everything except keys without a colon; distinct by hash of the op lines.",
 		Generate: generate,
-		NewExec:  func(*hxlib.Run) hxlib.Exec { return execWrap{} },
+		NewExec:  func(*hxlib.Run) hxlib.Exec { return &execWrap{} },
 		Monitor:  monitor,
 	})
 }
